@@ -144,7 +144,7 @@ func init() {
 		Level: "exploration",
 		Rule: "documents printed from an arbitrary model by one printer per legacy family (heap: heap/heap_v2/heapz_v2/heapprofile/growth/fragmentation with and without alloc columns and rate; Go count; contentionz/mutex/contention with optional cycles/second, sampling period, ms since reset; threadz with 'same as previous thread'; binary CPU 32/64-bit x LE/BE with near-universal second frame and duplicated leaf; Java heapz/contentionz), with comment/blank lines and an optional trailing memory map in /proc/maps or brief form; " +
 			"part driver: documents of a random family opened as files by the real driver; the profile saved with -proto must hold the samples (order, values, frames with binary, labels) and header the parser returns, and -raw / -traces must succeed. oracle: one sample per record in input order, addresses (call sites -1, leaf kept where documented, signal frame / duplicated leaf removed), values (raw, x period, unsampled 1/(1-exp(-size/rate)) in float64), bytes label, sample/period types, mapping assignment by containment. non-trivial = at least one record; distinct = distinct document bytes",
-		Assumptions: []string{"memory maps stay in the documented regime: non-adjacent mappings, main binary at 0x400000 offset 0 (no merging / fix-up heuristics)", "addresses >= 1 so that -1 does not wrap"},
+		Assumptions: []string{"memory maps stay in the documented regime: mappings of different files do not touch, main binary at 0x400000 offset 0 (no fix-up heuristics); a mapping listed in 2-4 adjacent pieces with consecutive offsets is expected back as one mapping (documented merge)", "addresses >= 1 so that -1 does not wrap"},
 		Parts: []harness.Part{
 			{Name: "heap", Quick: 6000, Thor: 300000, Run: run(legacy.Heap)},
 			{Name: "count", Quick: 2000, Thor: 100000, Run: run(legacy.Count)},
